@@ -145,7 +145,9 @@ def eval_case(kind, data):
 
     res = new_result()
     outcomes = set()
-    for fam, spec in data["specs"]:
+    from .c17 import mirror_spec
+
+    for (fam, spec), variant in itertools.product(data["specs"], ("plain", "second-call", "graph-then-mirror", "mirror-first")):
         text = R.print_spec(spec)
         nspec = R.normalize(spec)
         try:
@@ -153,6 +155,28 @@ def eval_case(kind, data):
         except Exception as e:  # noqa
             res["extra"]["rejected"] = res["extra"].get("rejected", 0) + 1
             continue
+        if variant == "second-call":
+            # history: the graph is built twice from the same object; the second one is judged
+            try:
+                mol.gen_reaction_graph()
+            except Exception:  # noqa
+                continue
+            text += " (second call)"
+        elif variant != "plain":
+            if len(nspec["elements"]) < 2:
+                continue
+            try:
+                if variant == "graph-then-mirror":
+                    try:
+                        mol.gen_reaction_graph()
+                    except Exception:  # noqa
+                        pass
+                mol = mol.gen_mirror()
+                nspec = mirror_spec(nspec)
+                text += f" (mirrored, {variant})"
+            except Exception as e:  # noqa
+                viol(res, f"C16|mirror-raises|{type(e).__name__}", f"{text}: gen_mirror raises {type(e).__name__}", {"text": text})
+                continue
         try:
             G = mol.gen_reaction_graph()
         except Exception as e:  # noqa
